@@ -120,7 +120,7 @@ inductive Stod (R : Type)
   | value (x : R)
   | invalid        -- std::invalid_argument: no conversion could be performed
   | range          -- std::out_of_range: strtod set ERANGE
-deriving Repr
+deriving Repr, DecidableEq
 
 /-- how numbers are read: `std::stod` and `std::isfinite` -/
 structure NumSem (R : Type) where
